@@ -242,7 +242,20 @@ impl Check for C06 {
             // special shapes: deep nesting, huge literals, zero divisors
             7 => {
                 let mut t = Txn::new(Date::new(2024, 1, 1), "special");
-                match rng.below(5) {
+                match rng.below(6) {
+                    5 => {
+                        // a residual that rounds away under a declared format, next to one other
+                        // commodity: the implied exchange would divide by the rounded total
+                        class = "zero-divisor";
+                        let frac = ["0.4", "0.04", "-0.3", "0.49"][rng.usize(4)];
+                        let fmt = if frac == "0.04" { "1,000.0 JPY" } else { "1,000 JPY" };
+                        world.files[0].push(Entry::Raw(vec!["commodity JPY".to_string(), format!("    format {}", fmt)]));
+                        t.postings.push(Posting::with_amount("Assets:Wallet", &format!("{}", 100), "JPY"));
+                        t.postings.push(Posting::with_amount("Assets:Wallet", frac, "JPY"));
+                        t.postings.push(Posting::with_amount("Expenses:Fee", "-100", "JPY"));
+                        t.postings.push(Posting::with_amount("Assets:Bank", if rng.chance(1, 2) { "-5" } else { "5" }, "EUR"));
+                        world.files[0].push(Entry::Txn(t));
+                    }
                     0 => {
                         class = "nesting";
                         let depth = *rng.pick(&[8usize, 64, 512, 2000, 5000, 20000, 60000]);
